@@ -341,3 +341,33 @@ Proof.
     destruct (b_info_ok b) eqn:Eo; [|contradiction]. eauto.
   - intros (i & b & Hi & Ho & Hs). exists b. split; [eapply nth_error_In; eassumption|now rewrite Ho].
 Qed.
+
+(* a backend written as a mopidy.backend.Backend subclass is routed by the providers it sets:
+   its schemes go to the library table iff a library provider is set (whether or not it can
+   play), to the browse table iff that library has a root directory, to the playlists table
+   iff a playlists provider is set *)
+Theorem provider_presence_is_routed P T i ss pv answer s :
+  mk_backends P = Ok T -> nth_error P i = Some (backend_of ss pv answer) -> In s ss ->
+  (tget (t_lib T) s = Some i <-> pv_library pv <> None) /\
+  (tget (t_browse T) s = Some i <-> exists r, pv_library pv = Some (Some r)) /\
+  (tget (t_playlists T) s = Some i <-> pv_playlists pv = true) /\
+  (tget (t_playback T) s = Some i <-> pv_playback pv = true).
+Proof.
+  intros HT Hn Hs.
+  assert (G : forall flag t, (forall s0 i0, tget t s0 = Some i0 <-> owns flag P i0 s0) ->
+                             (tget t s = Some i <-> flag (backend_of ss pv answer) = true)).
+  { intros flag t Ht. rewrite Ht. unfold owns. split.
+    - intros (b & Hb & _ & Hf & _). congruence.
+    - intros Hf. exists (backend_of ss pv answer). auto. }
+  repeat split.
+  - intros H. apply (G b_lib _ (tget_owner_lib P T HT)) in H. cbn in H. unfold has_library in H.
+    destruct (pv_library pv); congruence.
+  - intros H. apply (G b_lib _ (tget_owner_lib P T HT)). cbn. unfold has_library. destruct (pv_library pv); congruence.
+  - intros H. apply (G b_browse _ (tget_owner_browse P T HT)) in H. cbn in H. unfold has_library_browse in H.
+    destruct (pv_library pv) as [[r|]|]; try discriminate. eauto.
+  - intros [r H]. apply (G b_browse _ (tget_owner_browse P T HT)). cbn. unfold has_library_browse. now rewrite H.
+  - intros H. now apply (G b_playlists _ (tget_owner_playlists P T HT)) in H.
+  - intros H. now apply (G b_playlists _ (tget_owner_playlists P T HT)).
+  - intros H. now apply (G b_playback _ (tget_owner_playback P T HT)) in H.
+  - intros H. now apply (G b_playback _ (tget_owner_playback P T HT)).
+Qed.
